@@ -9,6 +9,7 @@ import (
 	"fmt"
 	"io"
 	"net"
+	"sync/atomic"
 	"testing"
 	"time"
 
@@ -527,12 +528,18 @@ func checkConcurrentSenders(c concCase) []vf.Finding {
 		done <- out
 	}()
 	start := make(chan struct{})
+	// closed: the harness has started to close the connections; a Send that fails after that fails because
+	// of the close, not by itself
+	var closed atomic.Bool
 	errs := make(chan error, c.Senders)
 	for s := 0; s < c.Senders; s++ {
 		go func(s int) {
 			<-start
 			for r := 0; r < c.Rounds; r++ {
 				if _, err := tx.Send(bytes.Repeat([]byte{byte(s + 1)}, lenOf(s, r))); err != nil {
+					if closed.Load() {
+						err = nil
+					}
 					errs <- err
 					return
 				}
@@ -541,20 +548,47 @@ func checkConcurrentSenders(c concCase) []vf.Finding {
 		}(s)
 	}
 	close(start)
-	// the receiver ends first (all messages, an error, or its read deadline); closing the connection then
-	// releases senders that are still blocked because the peer stopped reading a stream it cannot frame
-	got := <-done
-	a.Close()
-	b.Close()
-	var sendErr error
-	for s := 0; s < c.Senders; s++ {
-		if err := <-errs; err != nil && sendErr == nil {
-			sendErr = err
+	// Normally the receiver ends first (all messages, an error, or its read deadline); closing the connections
+	// then releases senders that are still blocked because the peer stopped reading a stream it cannot frame.
+	// When every sender has returned and one of them because its Send failed, nothing more will be written and
+	// the receiver would only sit out its read deadline: the sending side is closed at once (what was written
+	// before still arrives, then the receiver sees the end of the stream).
+	var got rcv
+	var sendErr error // the first error a Send returned by itself
+	returned, failed := 0, 0
+	note := func(err error) {
+		returned++
+		if err != nil {
+			failed++
+			if sendErr == nil {
+				sendErr = err
+			}
 		}
 	}
+	for received := false; !received; {
+		select {
+		case got = <-done:
+			received = true
+		case err := <-errs:
+			note(err)
+			if returned == c.Senders && failed > 0 {
+				a.Close()
+				got = <-done
+				received = true
+			}
+		}
+	}
+	closed.Store(true)
+	a.Close()
+	b.Close()
+	for returned < c.Senders {
+		note(<-errs)
+	}
 	var fs []vf.Finding
-	if sendErr != nil && got.err == nil && len(got.msgs) == total {
-		fs = append(fs, vf.F("NBTTransport.Send", "frameable-payload-refused", "concurrent sender: %v", sendErr))
+	// a Send that fails is reported as that, first; the messages that are then missing are its consequence and
+	// not a sign of interleaved frames (the ones that did arrive are still examined)
+	if sendErr != nil {
+		fs = append(fs, vf.F("NBTTransport.Send", "concurrent-send-failed", "%d of %d concurrent senders had a Send of a frameable payload fail, first: %v", failed, c.Senders, sendErr))
 	}
 	for i, m := range got.msgs {
 		if len(m) == 0 {
@@ -580,7 +614,7 @@ func checkConcurrentSenders(c concCase) []vf.Finding {
 		}
 		want[k]--
 	}
-	if got.err != nil || len(got.msgs) != total {
+	if sendErr == nil && (got.err != nil || len(got.msgs) != total) {
 		fs = append(fs, vf.F("NBTTransport", "frames-of-concurrent-senders-interleaved", "%d of %d messages received intact, then: %v", len(got.msgs), total, got.err))
 	}
 	return fs
